@@ -160,6 +160,9 @@ impl<'a> UserModel<'a> {
         // Fill target: rows in row_range, all source columns.
         let fill_row_start = if sign < 0 { to_row } else { last_row + 1 };
         let fill_row_end = if sign < 0 { row1 - 1 } else { to_row };
+        // Everything from here on changes the workbook. A fill that fails half way is
+        // not recorded: what it already did is taken back.
+        let result = (|| -> Result<(), String> {
         let saved_cse = self.collect_and_clear_cse_in_fill_target(
             sheet,
             fill_row_start,
@@ -240,6 +243,13 @@ impl<'a> UserModel<'a> {
                 index = (index + sign) % source_area.height;
             }
         }
+        Ok(())
+        })();
+        if let Err(e) = result {
+            self.rollback(&diff_list);
+            self.evaluate();
+            return Err(e);
+        }
         self.push_diff_list(diff_list);
         self.evaluate();
         Ok(())
@@ -307,6 +317,9 @@ impl<'a> UserModel<'a> {
         // Fill target: all source rows, columns in column_range.
         let fill_col_start = if sign < 0 { to_column } else { last_column + 1 };
         let fill_col_end = if sign < 0 { column1 - 1 } else { to_column };
+        // Everything from here on changes the workbook. A fill that fails half way is
+        // not recorded: what it already did is taken back.
+        let result = (|| -> Result<(), String> {
         let saved_cse = self.collect_and_clear_cse_in_fill_target(
             sheet,
             row1,
@@ -388,6 +401,13 @@ impl<'a> UserModel<'a> {
 
                 index = (index + sign) % source_area.width;
             }
+        }
+        Ok(())
+        })();
+        if let Err(e) = result {
+            self.rollback(&diff_list);
+            self.evaluate();
+            return Err(e);
         }
         self.push_diff_list(diff_list);
         self.evaluate();
